@@ -72,7 +72,9 @@ func New(ctx context.Context, l *log.Logger, iface *net.Interface, conf *pb.Serv
 			return nil, fmt.Errorf("failed to parse hwaddr '%s': %v", k, err)
 		}
 		oopts := *lopts
-		lo.SetClientOverrides(&oopts, v)
+		if err := lo.SetClientOverrides(&oopts, v); err != nil {
+			return nil, fmt.Errorf("invalid override for client '%s': %v", k, err)
+		}
 		if oopts.IP != nil {
 			if err := db.AddPermanentClient(oopts.IP, duidFromHwAddr(hwaddr)); err != nil {
 				return nil, fmt.Errorf("could not create permanent lease for %v -> %v: %v", hwaddr, oopts.IP, err)
